@@ -98,23 +98,42 @@ def header_of(c):
     return tuple((f, getattr(c, f)) for f in _CODE_FIELDS if hasattr(c, f))
 
 
+_FIELD_CACHE = {}
+
+
+def _field_names(t):
+    names = _FIELD_CACHE.get(t)
+    if names is None:
+        if dataclasses.is_dataclass(t):
+            names = tuple(f.name for f in dataclasses.fields(t))
+        else:
+            names = False
+        _FIELD_CACHE[t] = names
+    return names
+
+
 def data_fp(d):
     """CodeData (or any of its parts): every dataclass field including private ones,
     container types recorded."""
-    if dataclasses.is_dataclass(d) and not isinstance(d, type):
-        return ("D", type(d).__name__) + tuple(
-            (f.name, data_fp(getattr(d, f.name))) for f in dataclasses.fields(d)
-        )
     t = type(d)
+    if t is str:
+        return "s:" + ascii(d)
     if t is tuple:
-        return ("T",) + tuple(data_fp(x) for x in d)
+        return ("T",) + tuple([data_fp(x) for x in d])
+    if d is None:
+        return "N"
+    if t is int:
+        return "i:" + hex(d)
+    names = _field_names(t)
+    if names:
+        return ("D", t.__name__) + tuple([(n, data_fp(getattr(d, n))) for n in names])
     if t is list:
-        return ("L",) + tuple(data_fp(x) for x in d)
+        return ("L",) + tuple([data_fp(x) for x in d])
     if t is frozenset:
-        return ("FS",) + tuple(sorted((data_fp(x) for x in d), key=repr))
+        return ("FS",) + tuple(sorted([data_fp(x) for x in d], key=repr))
     if t is dict:
         return ("DICT",) + tuple(
-            sorted(((data_fp(k), data_fp(x)) for k, x in d.items()), key=repr)
+            sorted([(data_fp(k), data_fp(x)) for k, x in d.items()], key=repr)
         )
     return const_fp(d, code_fp)
 
